@@ -159,7 +159,7 @@ impl Sys {
             Op::Insert(p) => {
                 // peer 2's sink always reports "not connected" (e.g. the window between its channel closing and the
                 // disconnect path removing it): it is still present, so it still gets every broadcast and a result
-                self.reg.insert(PeerHandle::new(pid(p), Arc::new(CapSink { got: self.sinks[p as usize].clone(), connected: p != 2, refuse: p == 3 })));
+                self.reg.insert(PeerHandle::new(pid(p), Arc::new(CapSink { got: self.sinks[p as usize].clone(), connected: p != 2, refuse: p == 1 })));
                 (Ret::Unit, None)
             }
             Op::Remove(p) => (Ret::Bool(self.reg.remove(pid(p)).is_some()), None),
@@ -189,7 +189,7 @@ impl Sys {
                         bad_problem = Some(format!("a broadcast whose body cannot be serialized returned Ok={} and was delivered {delivered} times", r.is_ok()));
                     }
                 }
-                // every fifth broadcast peer 3's sink refuses the push (queue full, going away, other): it gets an Err in the
+                // every fifth broadcast peer 1's sink refuses the push (queue full, going away, other): it gets an Err in the
                 // result map, nothing is delivered to it, and it stays a member (the model's next operations check that)
                 let refusal: u8 = refusal_for(&path);
                 let (res, body, fmt): (HashMap<PeerId, Result<(), PeerSendError>>, Vec<u8>, u16) = match tok % 4 {
@@ -218,7 +218,7 @@ impl Sys {
                 set.sort();
                 let mut problem = bad_problem;
                 for (id, r) in &res {
-                    let refused_here = refusal != 0 && unpid(*id) == 3;
+                    let refused_here = refusal != 0 && unpid(*id) == 1;
                     let fits = match (r, refusal) {
                         (Ok(()), _) => !refused_here,
                         (Err(PeerSendError::Full), 1) | (Err(PeerSendError::Disconnected), 2) | (Err(PeerSendError::Other(_)), 3) => refused_here,
@@ -231,7 +231,7 @@ impl Sys {
                 for p in 0..NP as u8 {
                     let got = self.sinks[p as usize].lock().unwrap();
                     let mine: Vec<_> = got.iter().filter(|(m, _, _)| *m == path).collect();
-                    let want = if set.contains(&p) && !(refusal != 0 && p == 3) { 1 } else { 0 };
+                    let want = if set.contains(&p) && !(refusal != 0 && p == 1) { 1 } else { 0 };
                     if mine.len() != want {
                         problem = Some(format!("peer {p}: {} deliveries of broadcast {tok}, result map says {want}", mine.len()));
                     } else if let Some((_, b, f)) = mine.first() {
